@@ -271,6 +271,22 @@ func c08Make(cs *c08Case, r *labRun, rng *rand.Rand, k int) []byte { //nolint:cy
 		default:
 			return c08Plain(26, 0, seq, [][]byte{{0}, {}, {0, 16, 1, 2}}[rng.Intn(3)])
 		}
+	case "plain-established": // unprotected records thrown at an ESTABLISHED endpoint: the peer protects everything by now, so
+		// none of them can be the peer's - a fatal alert, a close_notify, application data, an ACK, a ChangeCipherSpec
+		// labelled with the current epoch (the cipher suites hand ChangeCipherSpec through unauthenticated)
+		seq := []uint64{uint64(k), uint64(3000 + k), 1<<48 - 1 - uint64(k)}[rng.Intn(3)]
+		switch k % 5 {
+		case 0:
+			return c08Plain(21, 0, seq, [][]byte{{2, 40}, {2, 10}, {2, 80}}[rng.Intn(3)])
+		case 1:
+			return c08Plain(21, 0, seq, []byte{1, 0})
+		case 2:
+			return c08Plain(23, 0, seq, rnd(1+rng.Intn(40)))
+		case 3:
+			return c08Plain(26, 0, seq, []byte{0, 16, 0, 0, 0, 0, 0, 0, 0, 1, 0, 0, 0, 0, 0, 0, 0, 1})
+		default:
+			return c08Plain(20, uint16(remoteEpoch), seq, []byte{1})
+		}
 	case "plain-alert":
 		bodies := [][]byte{{1, 0}, {2, 40}, {2, 10}, {1, 90}, {2}, {}, {2, 0, 0}}
 
@@ -438,7 +454,7 @@ func runC08Case(idx int, cs *c08Case) (res c08Result) { //nolint:cyclop,gocognit
 		target, sender = r.s, r.c
 	}
 	res.EstBefore = target.hsReturned() && target.hsErr == nil
-	if (cs.Class == "auth-malformed" || cs.Class == "cbc-padding" || cs.Class == "bitflip-protected") && !both() {
+	if (cs.Class == "auth-malformed" || cs.Class == "cbc-padding" || cs.Class == "bitflip-protected" || cs.Class == "plain-established") && !both() {
 		res.Lab = "class needs an established session"
 
 		return res
